@@ -200,6 +200,15 @@ partial def pValue : P GoVal := fun cs =>
     | some (kvs, r') => some (.map (collapse kvs), r')
     | none => none
   else if let some r := tryPre "n" then some (.nil, r)
+  else if let some r := tryPre "bg:" then
+    -- a Go big.Int value (hex magnitude, optional sign): outside the modelled region
+    let r1 := match r with | '-' :: t => t | _ => r
+    some (.opaque, r1.dropWhile fun c => c.isDigit || ('a' ≤ c && c ≤ 'f'))
+  else if let some r := tryPre "tg:" then
+    -- a Go cbor.Tag value `tg:N:VALUE`: outside the modelled region
+    (match pInt r with
+     | some (_, ':' :: r') => (match pValue r' with | some (_, r'') => some (.opaque, r'') | none => none)
+     | _ => none)
   else if let some r := tryPre "tm:" then
     -- a Go time.Time value: outside the modelled region (the CBOR encoder's time options)
     (match pInt r with
